@@ -13,7 +13,7 @@ LEVEL = "fault_enumeration"
 RULE = ("for random (token, key, nonce) triples (key/token offered as bytes or hex strings): (1) a genuine reply must authenticate, "
         "store the offered token/key and be followed by an encrypted exchange the simulated device accepts under nonce XOR key; "
         "(2) altered replies - every single-bit flip of the 64-byte proof, every reply length 0..80 except 64, error / encrypted-response / "
-        "every other packet type in place of the reply, a proof computed under a different key, and single-bit flips of the reply's header "
+        "every other packet type in place of the reply, a proof computed under a different key (random, and a catalogue of keys an outsider could compute: zeros, ones, digests of the published signing key, parts and digests of the token, permutations of the real key), and single-bit flips of the reply's header "
         "and counter - must make Device.authenticate raise AuthenticationError (LAN.authenticate: AuthenticationError or TimeoutError), "
         "leave Device.token/key as they were (None, or the credentials of an earlier successful authentication on a previous connection), "
         "put nothing but handshake requests carrying the offered token on the wire, and leave the session unauthenticated (the next "
@@ -60,6 +60,14 @@ def generate(ctx, rng):
         yield ("genuine-delayed", j), {"token": rng.randbytes(64), "key": rng.randbytes(32), "nonce": None, "reply_delay": delay,
                                        "key_form": rng.choice(["bytes", "hex"]), "token_form": "bytes", "prior": False,
                                        "tid": 20000 + j, "family": "genuine"}
+    # a genuine reply that reaches the client in two or three TCP segments (every split point of the 72-byte packet)
+    for split in range(1, 72):
+        yield ("genuine-split", split), {"token": rng.randbytes(64), "key": rng.randbytes(32), "nonce": rng.randbytes(32), "splits": [split],
+                                         "key_form": "bytes", "token_form": "bytes", "prior": False, "tid": 40000 + split, "family": "genuine"}
+    for j in range(20 if quick else 1500):
+        yield ("genuine-split3", j), {"token": rng.randbytes(64), "key": rng.randbytes(32), "nonce": rng.randbytes(32),
+                                      "splits": sorted(rng.sample(range(1, 72), 2)), "key_form": "hex", "token_form": "bytes", "prior": False,
+                                      "tid": 41000 + j, "family": "genuine"}
     for j in range(60 if quick else 3000):
         yield ("genuine-extra", j), {"token": rng.randbytes(64), "key": rng.randbytes(32), "nonce": rng.randbytes(32),
                                      "key_form": rng.choice(["bytes", "hex", "HEX"]), "token_form": rng.choice(["bytes", "hex", "HEX"]),
@@ -106,6 +114,21 @@ def _alterations(case):
         def f(reply, info):
             return [v3.build_handshake_response(v3.handshake_proof(bytes(case["other"]), info["nonce"]), info["counter"])]
         yield ("otherkey",), f, False
+        # keys somebody who does not know the device key could still compute or guess
+        import hashlib
+        from ..ref import v2 as _v2
+        tok, real = bytes(case["token"]), bytes(case["key"])
+        known = {"zero": bytes(32), "ff": b"\xff" * 32, "sha256-sign-key": hashlib.sha256(_v2.SIGN_KEY).digest(),
+                 "md5-sign-key-twice": _v2.ENC_KEY * 2, "sign-key-prefix": _v2.SIGN_KEY[:32], "token-head": tok[:32], "token-tail": tok[32:],
+                 "sha256-token": hashlib.sha256(tok).digest(), "key-reversed": real[::-1], "sha256-key": hashlib.sha256(real).digest(),
+                 "key-rotated": real[1:] + real[:1], "key-complement": bytes(b ^ 0xFF for b in real)}
+        for name, kk in known.items():
+            if kk == real:
+                continue
+
+            def fk(reply, info, kk=kk):
+                return [v3.build_handshake_response(v3.handshake_proof(kk, info["nonce"]), info["counter"])]
+            yield ("otherkey-" + name,), fk, False
 
         def g(reply, info):
             return [v3.build_handshake_response(reply[8:40] + bytes(reversed(reply[40:72])), info["counter"])]
@@ -251,6 +274,14 @@ def _genuine(ctx, case, token, key, nonce, tok_arg, key_arg):
             return [(case["reply_delay"] if nreq["n"] == 1 else 0.0, reply)] if ok else None
 
         dev.on_handshake = on_handshake
+    if case.get("splits"):
+        def on_handshake(conn, ok, reply, info):
+            if not ok:
+                return None
+            b = [0] + list(case["splits"]) + [len(reply)]
+            return [(0.01 * i, reply[a:e]) for i, (a, e) in enumerate(zip(b, b[1:]))]
+
+        dev.on_handshake = on_handshake
 
     async def go(loop):
         ac = AC(ip=dev.host, port=dev.port, device_id=dev.device_id)
@@ -262,7 +293,7 @@ def _genuine(ctx, case, token, key, nonce, tok_arg, key_arg):
         frames = await lan.send(acframe.state_query())
         return stored, ac.online, (lan.token, lan.key), len(frames)
 
-    k = (case["tid"], "genuine", case["key_form"], case["token_form"], case.get("reply_delay"))
+    k = (case["tid"], "genuine", case["key_form"], case["token_form"], case.get("reply_delay"), tuple(case.get("splits") or ()))
     try:
         (stored, online, lanstored, nframes), loop = H.run_virtual(go, net)
     except Exception as e:  # noqa: BLE001
